@@ -230,6 +230,8 @@ def main():
         for u in undecided:
             log(f"  UNDECIDED {u['unit']}: {u['reason'].splitlines()[0]}")
             if os.environ.get("VERIF_VERBOSE"):
+                log("\n".join("      " + l for l in u["reason"].splitlines()[1:40]))
+            if os.environ.get("VERIF_VERBOSE"):
                 log(u["reason"])
         if failed:
             return core.EXIT_VIOLATION
